@@ -144,6 +144,14 @@ func validateRange(e *Expression) (err error) {
 		return errors.New("RANGE validation: range boundary must have a maximum")
 	}
 
+	if IsExpr(boundary.Min) && !isLiteralExpr(boundary.Min) {
+		return errors.New("RANGE validation: range boundary minimum must be a literal")
+	}
+
+	if IsExpr(boundary.Max) && !isLiteralExpr(boundary.Max) {
+		return errors.New("RANGE validation: range boundary maximum must be a literal")
+	}
+
 	return nil
 }
 
